@@ -59,6 +59,43 @@ type Ctx struct {
 	Set bool
 }
 
+type ctxEntry struct {
+	id uint64
+	c  Ctx
+}
+
+//go:norace
+func (s *Sim) ctxGet(id uint64) (Ctx, bool) {
+	for i := range s.ctx {
+		if s.ctx[i].id == id {
+			return s.ctx[i].c, true
+		}
+	}
+	return Ctx{}, false
+}
+
+//go:norace
+func (s *Sim) ctxSet(id uint64, c Ctx) {
+	for i := range s.ctx {
+		if s.ctx[i].id == id {
+			s.ctx[i].c = c
+			return
+		}
+	}
+	s.ctx = append(s.ctx, ctxEntry{id, c})
+}
+
+//go:norace
+func (s *Sim) ctxDel(id uint64) {
+	for i := range s.ctx {
+		if s.ctx[i].id == id {
+			s.ctx[i] = s.ctx[len(s.ctx)-1]
+			s.ctx = s.ctx[:len(s.ctx)-1]
+			return
+		}
+	}
+}
+
 // Verdict of a simulated run.
 type Verdict struct {
 	Kind      string // "finished", "deadlock", "stepcap", "duplicate-label", "replay-diverged", "watchdog"
@@ -90,7 +127,7 @@ type Stats struct {
 type Sim struct {
 	mu     sync.Mutex
 	parked []parkedEntry
-	ctx    map[uint64]Ctx
+	ctx    []ctxEntry // goroutine id -> context; a slice, not a map: runtime map code reports to the race detector even from norace callers
 
 	live     atomic.Int64 // top-level goroutines not yet returned
 	panics   []string
@@ -110,7 +147,7 @@ var cur atomic.Pointer[Sim]
 
 // New creates a simulator; Install makes it the process-wide current one.
 func New(policy Policy, stepCap int) *Sim {
-	s := &Sim{Policy: policy, StepCap: stepCap, ctx: map[uint64]Ctx{}, hash: 1469598103934665603}
+	s := &Sim{Policy: policy, StepCap: stepCap, hash: 1469598103934665603}
 	s.Stats.SitePark = map[Site]int{}
 	s.Stats.Switches = map[uint32]int{}
 	s.seen = map[Label]struct{}{}
@@ -202,9 +239,9 @@ func SetCtx(c Ctx) Ctx {
 	id := goid()
 	raceDisable()
 	s.mu.Lock()
-	old := s.ctx[id]
+	old, _ := s.ctxGet(id)
 	c.Set = true
-	s.ctx[id] = c
+	s.ctxSet(id, c)
 	s.mu.Unlock()
 	raceEnable()
 	return old
@@ -222,9 +259,9 @@ func RestoreCtx(c Ctx) {
 	raceDisable()
 	s.mu.Lock()
 	if c.Set {
-		s.ctx[id] = c
+		s.ctxSet(id, c)
 	} else {
-		delete(s.ctx, id)
+		s.ctxDel(id)
 	}
 	s.mu.Unlock()
 	raceEnable()
@@ -247,7 +284,7 @@ func (s *Sim) lookupCtx() Ctx {
 	id := goid()
 	raceDisable()
 	s.mu.Lock()
-	c, ok := s.ctx[id]
+	c, ok := s.ctxGet(id)
 	s.mu.Unlock()
 	raceEnable()
 	if ok {
@@ -258,13 +295,13 @@ func (s *Sim) lookupCtx() Ctx {
 	raceDisable()
 	s.mu.Lock()
 	for _, p := range chain {
-		if pc, ok := s.ctx[p]; ok {
+		if pc, ok := s.ctxGet(p); ok {
 			c = pc
 			break
 		}
 	}
 	c.Set = true
-	s.ctx[id] = c
+	s.ctxSet(id, c)
 	s.mu.Unlock()
 	raceEnable()
 	return c
